@@ -47,7 +47,7 @@ static std::string rdf_target() {
 void tool_build(const Plan &p, Case &c) {
   bool two = (p.variant & V_TWO) && p.chain >= 2;
   double box = p.lattice ? 2.0 : 1.7 + 0.1 * (double)(p.case_seed % 6);
-  c.files["topol.xml"] = gen_topology_xml(p, two, box);
+  std::string topfile = add_topology(p, c, two, box);
   std::string trj = trj_file(p);
   c.files[trj] = gen_trajectory(p, box, p.nmol * p.chain);
   std::ostringstream o;
@@ -66,7 +66,7 @@ void tool_build(const Plan &p, Case &c) {
     c.cwd_files["A-B.dist.tgt"] = rdf_target();
     c.cwd_files["A-B.param.cur"] = "0 0.0002 i\n1 0.02 i\n";
   }
-  c.args = {"--top", "{IN}/topol.xml", "--trj", "{IN}/" + trj, "--options", "{IN}/settings.xml", "--hessian-check", "no"};
+  c.args = {"--top", "{IN}/" + topfile, "--trj", "{IN}/" + trj, "--options", "{IN}/settings.xml", "--hessian-check", "no"};
 }
 
 // csg_reupdate solves H dl = -DS by a Cholesky factorisation, where H is the covariance of the parameter
